@@ -17,8 +17,8 @@ from .. import timegen
 NAME = "broker"
 PROPS = ("C01", "C02", "C03", "C04", "C05", "C15")
 
-ASSETS = ["EQ:AAA", "EQ:BBB", "EQ:CCC", "EQ:DDD"]
-PIDS = ["p1", "p2", "p3"]
+ASSETS = ["EQ:AAA", "EQ:BBB", "EQ:CCC", "EQ:DDD", "EQ:EEE", "EQ:FFF", "EQ:GGG", "EQ:HHH"]
+PIDS = ["p1", "p2", "p3", "p4", "p5", "p6"]
 
 FAULT_KINDS = (
     "neg_amount", "overdraw_account", "overdraw_portfolio", "overfund_portfolio", "exact_balance",
@@ -91,8 +91,12 @@ def _qty(rng):
 def generate(rng, focus, tier="quick"):
     """Produce the whole operation/fault plan for one run (JSON-serialisable)."""
     n_assets = rng.randrange(1, 5)
-    assets = ASSETS[:n_assets]
     max_pf = rng.randrange(1, 4)
+    if rng.random() < (0.25 if tier == "thorough" else 0.08):
+        # larger books: behaviour that only shows for the N-th portfolio or asset
+        n_assets = rng.randrange(5, 9)
+        max_pf = rng.randrange(4, 7)
+    assets = ASSETS[:n_assets]
     r = rng.random()
     if r < 0.3:
         fee = {"kind": "zero"}
@@ -120,6 +124,7 @@ def generate(rng, focus, tier="quick"):
         "np_quotes": rng.random() < 0.5,
         "quotes0": {a: list(_quote(rng)) for a in assets},
         "ccy": rng.choice(["USD", "USD", "GBP", "EUR"]),
+        "np_qty": rng.random() < 0.2,
     }
     ops = []
     sh = {"pids": [], "now": start, "pending": 0, "held": set(), "quotes": dict(
@@ -814,7 +819,11 @@ class Exec(object):
         qty = _resolve_qty(op["qty"], s, m, pid, asset)
         oid = "o%05d" % self.next_oid
         self.next_oid += 1
-        order = Order(ts(m.now), asset, qty, order_id=oid)
+        if self.cfg.get("np_qty"):
+            import numpy as np
+            order = Order(ts(m.now), asset, np.int64(qty), order_id=oid)   # numpy integers are integers too
+        else:
+            order = Order(ts(m.now), asset, qty, order_id=oid)
         if pid not in m.pfs:
             self.refused("unknown_portfolio", lambda: s.broker.submit_order(pid, order),
                          (KeyError,), "submit_order")
@@ -1040,6 +1049,8 @@ class Exec(object):
         """Book one captured transaction into the ledger; judge C05 on it."""
         s, m, ctx = self.s, self.m, self.ctx
         pid, a, q = c["pid"], c["asset"], c["qty"]
+        if float(q) == int(q):
+            q = int(q)          # numpy integers behave, but the ledger is exact Python arithmetic
         p = m.pfs[pid]
         price, comm = c["price"], c["comm"]
         o = self.orders.get(c["oid"])
